@@ -89,8 +89,14 @@ def main():
 
         # 3. the generated search
         for fn, shards in mod.plan(ctx):
+            ts = time.time()
             part = H.run_shards(mod.__name__, fn, ctx, shards)
             res.merge(part)
+            res.hist['stage:%s:evaluations' % fn] = part.evaluations
+            res.notes.append('stage %s: %d shards, %d evaluations, %.1fs wall' % (
+                fn, len(shards), part.evaluations, time.time() - ts))
+            if os.environ.get('VERIF_VERBOSE'):
+                print(res.notes[-1], file=sys.stderr)
 
         # 4. verdict
         out = []
